@@ -32,6 +32,7 @@ def main(argv):
     ids = [a for a in argv[1:] if not a.startswith('--')]
     tier = 'quick'
     seeds = [0, 1, 2]
+    confirm = '--no-confirm' not in argv        # --no-confirm: the change was confirmed earlier, only apply it and run the checks
     for i, a in enumerate(argv):
         if a == '--tier':
             tier = argv[i + 1]
@@ -48,18 +49,20 @@ def main(argv):
             raise SystemExit('worktree add failed: ' + o)
         env = dict(os.environ, YAQL_ROOT=copy, PYTHONPATH=copy, PYTHONDONTWRITEBYTECODE='1')
         demo = os.path.join(seed, 'demo.py')
-        rc, o = sh('/venv/bin/python %s' % demo, cwd=copy, env=env)
-        out['demo_unchanged'] = rc
+        if confirm:
+            rc, o = sh('/venv/bin/python %s' % demo, cwd=copy, env=env)
+            out['demo_unchanged'] = rc
         rc, o = sh('git apply %s' % os.path.join(seed, 'patch.diff'), cwd=copy)
         out['patch_applies'] = rc == 0
         if rc != 0:
             out['patch_error'] = o[-500:]
             return out
-        rc, o = sh('/venv/bin/python -m pytest -q -p no:cacheprovider yaql/tests 2>&1 | tail -1', cwd=copy, env=env)
-        out['tests'] = o.strip()[-80:]
-        rc, o = sh('/venv/bin/python %s' % demo, cwd=copy, env=env)
-        out['demo_changed'] = rc
-        out['demo_output'] = o.strip()[-400:]
+        if confirm:
+            rc, o = sh('/venv/bin/python -m pytest -q -p no:cacheprovider yaql/tests 2>&1 | tail -1', cwd=copy, env=env)
+            out['tests'] = o.strip()[-80:]
+            rc, o = sh('/venv/bin/python %s' % demo, cwd=copy, env=env)
+            out['demo_changed'] = rc
+            out['demo_output'] = o.strip()[-400:]
         for pid in ids:
             runs = []
             for s in seeds:
